@@ -126,7 +126,7 @@ def _np_op(op, a, p):
     if op == "stack":
         return np.stack([a[0], a[1]], axis=p["axis"])
     if op == "concat":
-        return np.concatenate([a[0], a[1]], axis=p["axis"])
+        return np.concatenate([a[0], a[1]] * p.get("n", 1), axis=p["axis"])
     if op == "index":
         return a[0][_idx_np(p)]
     if op == "advidx":
@@ -175,7 +175,7 @@ def _pt_op(op, a, p):
     if op == "stack":
         return pt.stack([a[0], a[1]], axis=p["axis"])
     if op == "concat":
-        return pt.concatenate([a[0], a[1]], axis=p["axis"])
+        return pt.concatenate([a[0], a[1]] * p.get("n", 1), axis=p["axis"])
     if op == "index":
         return a[0][_idx_np(p)]
     if op == "advidx":
@@ -243,7 +243,7 @@ def _draw_params(rng, op, vals):
     if op == "concat":
         if nd == 0:
             return None
-        return {"axis": rng.randrange(nd)}
+        return {"axis": rng.randrange(nd), "n": rng.choice([1, 1, 1, 1, 6])}
     if op == "index":
         if nd == 0:
             return None
